@@ -52,6 +52,9 @@ def generate(seed, tier):
             name, mod = 'C04', C04
             sub = mod.generate(g.int(0, 1 << 60), tier)
             scn = copy.deepcopy(sub['scn'])
+    for op in scn['actors'][0]:
+        if op.get('cb') == 'reenter':
+            op['cb'] = 'count'      # the re-entrant callback is a sync-only scenario (a plain function cannot await)
     return {'seed': seed, 'scn': scn, 'family': name, 'fault': extra.get('fault', False)}
 
 
